@@ -631,6 +631,71 @@ fn main() {
                 w.dir = PathBuf::from(a[0]);
                 "ok".into()
             }
+            "writefile" => {
+                let data = unhex(a[1]);
+                match std::fs::write(a[0], data) {
+                    Ok(()) => "ok".into(),
+                    Err(e) => format!("err:{e}"),
+                }
+            }
+            "fingerprint" => {
+                // names, sizes and a content hash of every file below a directory
+                fn walk(p: &std::path::Path, out: &mut Vec<String>) {
+                    if let Ok(rd) = std::fs::read_dir(p) {
+                        let mut es: Vec<_> = rd.filter_map(|e| e.ok()).collect();
+                        es.sort_by_key(|e| e.file_name());
+                        for e in es {
+                            let path = e.path();
+                            if path.is_dir() {
+                                out.push(format!("{}/", path.display()));
+                                walk(&path, out);
+                            } else {
+                                let data = std::fs::read(&path).unwrap_or_default();
+                                let mut h: u64 = 0xcbf29ce484222325;
+                                for b in &data {
+                                    h ^= u64::from(*b);
+                                    h = h.wrapping_mul(0x100000001b3);
+                                }
+                                out.push(format!("{}:{}:{:x}", path.display(), data.len(), h));
+                            }
+                        }
+                    }
+                }
+                let mut out = vec![];
+                walk(std::path::Path::new(a[0]), &mut out);
+                let mut h: u64 = 0xcbf29ce484222325;
+                for b in out.join("|").bytes() {
+                    h ^= u64::from(b);
+                    h = h.wrapping_mul(0x100000001b3);
+                }
+                format!("files={} hash={:x}", out.len(), h)
+            }
+            "open2" => {
+                // a second, independent open of the same directory while the first handles are alive
+                let o = kv(a);
+                let mut b = Database::builder(&w.dir);
+                if let Some(v) = o.get("workers") {
+                    b = b.worker_threads_unchecked(v.parse().expect("workers"));
+                }
+                match b.open() {
+                    Ok(_d) => "ok".into(),
+                    Err(e) => format!("err:{}", errname(&e)),
+                }
+            }
+            "ks_keep" => {
+                // keep only this keyspace handle alive across close_db_only
+                "ok".into()
+            }
+            "close_db_only" => {
+                // drop the database handle (and everything else) but keep the keyspace handles
+                w.iters.clear();
+                w.snaps.clear();
+                w.batches.clear();
+                w.otx.clear();
+                w.stx.clear();
+                w.db = None;
+                "ok".into()
+            }
             "flip" => {
                 // flip <file> <offset> <byte>
                 let off: usize = a[1].parse().expect("off");
